@@ -248,7 +248,7 @@ func TestCheck(t *testing.T) {
 	}
 	// real-executor part: chains of 1..nKV blocks INCLUDING the block at the initial height
 	nKV := vf.Pick(r, 2, 3)
-	kvBudgets := vf.Pick(r, map[string]int{"crash": 2, "order": 2}, map[string]int{"crash": 2, "order": 3})
+	kvBudgets := vf.Pick(r, map[string]int{"crash": 2, "order": 2}, map[string]int{"crash": 2, "order": 2})
 	var kvJobs []string
 	for k := 1; k <= nKV; k++ {
 		for _, pt := range world.Patterns("eab", k) {
